@@ -42,6 +42,7 @@ def setup(ctx):
         "writes are observed at asyncio.sslproto._SSLProtocolTransport.write (the transport the client protocol runs on)",
     ]
     ctx.require("monitor", "store_location_calls", 6)
+    ctx.require("monitor", "calls_after_failed_import", 9)
     ctx.require("monitor", "calls", 31)
     ctx.require("monitor", "failed_verifications", 19)
     ctx.require("monitor", "verify_returns_seen", 29)
@@ -116,16 +117,17 @@ def run(ctx):
 
     rng = ctx.rng("c11")
     idents = {
-        "good": certs.identity("c11-good", "ec"),
-        "other": certs.identity("c11-other", "rsa"),
+        # look-alikes: same subject, issuer and serial number, different keys
+        "good": certs.identity("c11-good", "ec", serial=777011),
+        "other": certs.identity("c11-other", "rsa", serial=777011),
         "tampered": certs.identity("c11-tampered", "ec", tamper="bool"),
     }
     # the same situations for a client that runs CA verification *next to* TOFU (verify_ssl=True with a context
     # trusting a private CA): both the pinned and the changed certificate are CA-valid for the host name
     the_ca = certs.ca()
     idents_ca = {
-        "good": certs.identity("c11-ca-good", "ec", cn="pinned.test", issuer=the_ca, sans=("127.0.0.1", "localhost")),
-        "other": certs.identity("c11-ca-other", "rsa", cn="pinned.test", issuer=the_ca, sans=("127.0.0.1", "localhost")),
+        "good": certs.identity("c11-ca-good", "ec", cn="pinned.test", issuer=the_ca, sans=("127.0.0.1", "localhost"), serial=777012),
+        "other": certs.identity("c11-ca-other", "rsa", cn="pinned.test", issuer=the_ca, sans=("127.0.0.1", "localhost"), serial=777012),
         "tampered": idents["tampered"],
     }
     own = certs.identity("c11-client-identity", "ec")
@@ -315,6 +317,8 @@ def run(ctx):
                 run_reuse_after_context(ctx, peer, idents, state, tmp, mon)
             if ctx.mine(k + 4):
                 run_store_location(ctx, peer, idents, state, tmp, mon)
+            if ctx.mine(k + 5):
+                run_after_failed_import(ctx, peer, idents, state, tmp, mon)
             # ---- concurrent calls on one client
             if ctx.mine(k + 1):
                 run_concurrent(ctx, peer, idents, state, tmp, mon)
@@ -386,6 +390,74 @@ def run_store_location(ctx, peer, idents, state, tmp, mon):
             elif res[0] == "response":
                 ctx.undecided("store-location: verification did not fail (see C03)")
             ctx.case(("store-location", op, how, res[0], bool(received)), True, sample=wit)
+
+
+def run_after_failed_import(ctx, peer, idents, state, tmp, mon):
+    """The client's own store object has just been through an import that failed part-way (a bad entry behind good
+    ones, replace or merge mode): the host is still pinned, a changed certificate still stops the request."""
+    from cryptography import x509
+
+    from nauyaca.client.session import GeminiClient
+    from nauyaca.security.tofu import CertificateChangedError
+
+    good = x509.load_der_x509_certificate(idents["good"].der)
+    fp_other = certs.fingerprint(idents["other"].der)
+    for op in ("get", "upload", "delete"):
+        for mode in ("replace", "merge"):
+            for bad in ("port-0", "missing-fingerprint", "hosts-not-a-table-entry"):
+                d = os.path.join(tmp, f"imp-{op}-{mode}-{bad}")
+                os.makedirs(d)
+                state.update(mode="eager", redirect_to=None)
+                state["go"].set()
+                peer.swap_cert(idents["good"])
+                url = f"gemini://127.0.0.1:{peer.port}/private?q=SECRETQUERY"
+                client = GeminiClient(timeout=6, trust_on_first_use=True, tofu_db_path=Path(d) / "pins.db")
+                client.tofu_db.trust("127.0.0.1", peer.port, good)
+                entry_ok = f'[hosts."elsewhere.test:1965"]\nhostname = "elsewhere.test"\nport = 1965\nfingerprint = "{fp_other}"\nfirst_seen = "2024-01-01T00:00:00"\nlast_seen = "2024-01-01T00:00:00"\n'
+                entry_same = f'[hosts."127.0.0.1:{peer.port}"]\nhostname = "127.0.0.1"\nport = {peer.port}\nfingerprint = "{fp_other}"\nfirst_seen = "2024-01-01T00:00:00"\nlast_seen = "2024-01-01T00:00:00"\n'
+                if bad == "port-0":
+                    entry_bad = f'[hosts."broken.test:0"]\nhostname = "broken.test"\nport = 0\nfingerprint = "{fp_other}"\n'
+                elif bad == "missing-fingerprint":
+                    entry_bad = '[hosts."broken.test:1965"]\nhostname = "broken.test"\nport = 1965\n'
+                else:
+                    entry_bad = '[hosts]\n"broken.test:1965" = "not a table"\n'
+                toml = os.path.join(d, "in.toml")
+                with open(toml, "w") as f:
+                    f.write((entry_ok + (entry_same if mode == "replace" else "") + entry_bad) if bad != "hosts-not-a-table-entry" else (entry_bad + entry_ok.replace("[hosts.", "[hosts.")))
+                try:
+                    client.tofu_db.import_toml(Path(toml), merge=(mode == "merge"), on_conflict=lambda *a: True)
+                    ctx.undecided("failed-import: the import did not fail")
+                    continue
+                except Exception:  # noqa: BLE001
+                    pass
+                peer.swap_cert(idents["other"])
+                n0 = len(peer.log)
+
+                async def call():
+                    if op == "get":
+                        return await client.get(url)
+                    if op == "delete":
+                        return await client.delete(url, token="SECRETTOKEN")
+                    return await client.upload(url, b"SECRET" * 30, mime_type="text/plain", token="SECRETTOKEN")
+
+                try:
+                    resp = asyncio.run(call())
+                    res = ("response", resp.status)
+                except CertificateChangedError:
+                    res = ("changed",)
+                except BaseException as e:  # noqa: BLE001
+                    res = ("error", type(e).__name__)
+                peer.wait_idle(3)
+                received = b"".join(r["received"] for r in peer.log[n0:])
+                ctx.count("monitor", "calls")
+                ctx.count("monitor", "failed_verifications")
+                ctx.count("monitor", "calls_after_failed_import")
+                wit = {"operation": op, "before": f"import_toml({mode}) on the client's store raised ({bad})", "result": res, "peer_received_len": len(received), "peer_received_head": received[:100]}
+                if received:
+                    ctx.violation(f"peer-received-bytes:entry={op}:pin=changed:after=failed-import", f"{len(received)} request bytes reached a peer whose certificate differs from the pin", wit)
+                elif res[0] == "response":
+                    ctx.undecided("after-failed-import: verification did not fail (see C03)")
+                ctx.case(("after-failed-import", op, mode, bad, res[0], bool(received)), True, sample=wit)
 
 
 def run_reuse_after_context(ctx, peer, idents, state, tmp, mon):
